@@ -56,13 +56,15 @@ FrameFor(i, kind, c, ver, mt) ==
     FrameHdr(ver, Ep(i)[1], mt, Ep(i)[2], c) \o Body(i, kind, p)
 
 CtrOf(c, rel) == IF rel = "next" THEN (c + 1) % 65536 ELSE IF rel = "same" THEN c
-                 ELSE IF rel = "plus2" THEN (c + 2) % 65536 ELSE (c + 257) % 65536        \* 256 frames lost: equal modulo 256 only
+                 ELSE IF rel = "plus2" THEN (c + 2) % 65536
+                 ELSE IF rel = "one" THEN 1 ELSE IF rel = "zero" THEN 0                   \* absolute: what follows a value-initialised entry
+                 ELSE (c + 257) % 65536                                                   \* 256 frames lost: equal modulo 256 only
 VerOf(i, rel) == IF rel = "same" THEN i ELSE i + 8
 MtOf(rel) == IF rel = "same" THEN MtData ELSE MtStatus
 
 KindIdx(k) == CHOOSE n \in 1..17 : << "U", "F", "I", "L", "F0", "Ftrail", "Lpad", "UU", "UF", "UL", "FU", "bad0", "err",
                                      "errL", "long", "cut12", "hdr8" >>[n] = k
-RelIdx(r) == IF r = "next" THEN 0 ELSE IF r = "same" THEN 1 ELSE IF r = "plus2" THEN 2 ELSE 3
+RelIdx(r) == IF r = "next" THEN 0 ELSE IF r = "same" THEN 1 ELSE IF r = "plus2" THEN 2 ELSE IF r = "one" THEN 4 ELSE IF r = "zero" THEN 5 ELSE 3
 
 Init ==
     /\ pending = D!EmptyPending
@@ -91,6 +93,13 @@ FeedCmp(i, kind, crel, vrel, mrel) ==
     /\ Feed(i, FrameFor(i, kind, c, VerOf(i, vrel), MtOf(mrel)),
             100000 * i + 1000 * KindIdx(kind) + 100 * RelIdx(crel) + 10 * (IF vrel = "same" THEN 0 ELSE 1) + (IF mrel = "same" THEN 0 ELSE 1))
 
+(* a continuation segment whose frame header looks like a value-initialised one (version 1, message type 0 = undefined, *)
+(* counter 0 or 1): it continues nothing, whatever an implementation keeps in an entry it has just created (round9a-5)  *)
+FeedDefaultLike(i, kind, crel) ==
+    LET c == CtrOf(ctr[i], crel) IN
+    /\ ctr' = [ctr EXCEPT ![i] = c]
+    /\ Feed(i, FrameFor(i, kind, c, 1, 0), 100000 * i + 1000 * KindIdx(kind) + 100 * RelIdx(crel) + 22)
+
 (* buffers that are no capture-module frame: the decoder and every shadow must stay as they are *)
 (* a leading 0x00 routes a buffer away from the capture-module path whatever its length: here 20 bytes that   *)
 (* otherwise look like a frame of endpoint i (device id, stream id, plausible counter)                         *)
@@ -112,6 +121,7 @@ Next ==
     /\ \/ \E i \in E, kind \in Kinds, crel \in CtrRels : FeedCmp(i, kind, crel, "same", "same")
        \/ \E i \in E, kind \in Kinds \cap {"F", "I", "L"}, vrel \in VerRels, mrel \in MtRels :
               (vrel # "same" \/ mrel # "same") /\ FeedCmp(i, kind, "next", vrel, mrel)
+       \/ \E i \in E, kind \in Kinds \cap {"I", "L", "F0"}, crel \in {"one", "zero"} : FeedDefaultLike(i, kind, crel)
        \/ \E n \in (1..3) \cup {9 + i : i \in E} : FeedAlien(n)
 
 Spec == Init /\ [][Next]_vars
